@@ -34,7 +34,7 @@ from .. import tlc
 
 LISTED = ("put", "cr", "lf", "ri", "bs", "cup", "cuu", "cud", "cuf", "cub", "el", "ed", "ich", "dch", "il", "dl", "stbm", "sgr")
 EXT = ("txt", "ind", "nel", "cha", "vpa", "cnl", "cpl", "ech", "ht", "hts", "tbc", "decom", "irm", "decawm", "lnm",
-       "decsc", "decrc", "scosc", "scorc", "so", "si", "scs", "mcs", "raw")
+       "decsc", "decrc", "scosc", "scorc", "so", "si", "scs", "mcs", "raw", "mal")
 QUERY = ("cpr", "dsr", "da")
 CMDS = LISTED + EXT + QUERY
 # commands after which a VT100 still has its last-column flag (the cursor does not move)
@@ -42,7 +42,7 @@ KEEPS_FLAG = ("el", "ed", "ech", "sgr", "ht", "hts", "tbc", "irm", "decawm", "ln
 CPU_BUDGET_S = 4.0     # user CPU seconds of this process for ONE feed (ITIMER_VIRTUAL: machine load cannot trip it)
 WALL_BUDGET_S = 90.0   # backstop for a feed that blocks without burning CPU
 LOOP_FINALS = b"LM@P"  # insert/delete lines/characters
-TEXT_CMDS = ("put", "txt", "raw")
+TEXT_CMDS = ("put", "txt", "raw", "mal")
 # urwid encodings of the faithfulness part: "utf8" locks the emulator's decoder to UTF-8; the others leave the choice to ESC % G / ESC % @
 UNLOCKED_ENCS = ("utf-8", "iso8859-1")
 
@@ -204,7 +204,7 @@ def encode(cmd, rng):
         return b"\x1b" + (b"(" if a == 0 else b")") + bytes([b])
     if t == "mcs":     # select the main character set: UTF-8 (ESC % G, obsolete ESC % 8) / the default 8-bit set (ESC % @)
         return (b"\x1b%8" if rng.random() < 0.15 else b"\x1b%G") if a else b"\x1b%@"
-    if t == "raw":     # the bytes as they are
+    if t in ("raw", "mal"):     # the bytes as they are ("mal": not well-formed UTF-8 on their own)
         return bytes(ps)
     if t in ("decom", "irm", "decawm", "lnm"):
         num = {"decom": "?6", "irm": "4", "decawm": "?7", "lnm": "20"}[t]
@@ -463,6 +463,11 @@ def run_a(spec):
         if k == "resize":
             w, h = st["w"], st["h"]
             e["w"], e["h"] = w, h
+            try:       # what was there before: "lines scrolled off the top are kept, in order" across the resize
+                before = observe(t, enc)
+                e["psb"], e["pg"] = before["sb"], before["g"]
+            except Exception:  # noqa: BLE001
+                e["psb"], e["pg"] = [], []
             exc, hang = guarded(lambda: t.resize(w, h))  # noqa: B023
             stale_by = stale_by or k
         elif k == "view":
@@ -1037,6 +1042,129 @@ def scrollback_view_specs(rng, heights):
     return out
 
 
+def resize_lines_specs(rng, n):
+    """"Lines scrolled off the top are kept, in order" x "any interleaving of resizes": numbered lines, more than the screen holds, then
+    resizes of every kind (taller by one / by several rows at once, shorter, wider, narrower), more lines and scrolled-back views in
+    between; every resize is judged against what scrollback and screen held before it."""
+    out = []
+    for i in range(n):
+        w, h = rng.choice([2, 3, 4, 6]), rng.choice([1, 2, 3, 4])
+        w0, h0 = w, h
+        steps = []
+        ln = 0
+
+        def lines(k, first=False):
+            nonlocal ln
+            for j in range(k):
+                if not (first and j == 0):
+                    steps.append(make_step(_c("nel"), rng))
+                steps.append(make_step(_c("txt", ps=[65 + ln % 26] + [48 + (ln // 26) % 10, 97 + ln % 26][:rng.randint(0, 2)]), rng))
+                ln += 1
+
+        lines(h + rng.randint(2, 5), True)
+        for _ in range(rng.randint(2, 5)):
+            r = rng.random()
+            if r < 0.45:
+                h2 = h + rng.randint(2, 4)        # several rows taller at once
+            elif r < 0.6:
+                h2 = h + 1
+            elif r < 0.85:
+                h2 = rng.randint(1, max(1, h - 1))
+            else:
+                h2 = h
+            w = rng.choice([w, w, w, rng.choice([1, 2, 3, 5, 7])])
+            h = h2
+            steps.append({"t": "resize", "w": w, "h": h})
+            r = rng.random()
+            if r < 0.35:
+                steps.append({"t": "view", "k": rng.randint(1, h + 3)})
+            elif r < 0.7:
+                steps.append(make_step(_c("cup", 0, h - 1), rng))
+                lines(rng.randint(1, 3))
+        steps.append({"t": "view", "k": rng.randint(1, h + 2)})
+        out.append({"w": w0, "h": h0, "steps": steps, "driver": "resize-lines"})
+    return out
+
+
+# SGR parameter lists of the split-rendition family: one attribute or one colour per sequence
+SGR_FLAGS = [[1], [1], [4], [7], [5], [24], [27], [25]]
+
+
+def sgr_split_specs(rng, n):
+    """The rendition built up over several SGR sequences (state carried from one CSI m to the next): bold with the eight basic, the
+    eight bright and the palette colours 0..15 selected by index (38;5;n) or, in a family of their own, 24-bit colours with small
+    components; a glyph after each, so pen and cell are compared after every sequence."""
+    out = []
+    for true, seq in [(True, [[1], [38, 2, 0, 0, 12], [4], [48, 2, 0, 0, 9], [7]]), (True, [[38, 2, 0, 0, 8], [1], [5], [24]]),
+                      (False, [[1], [38, 5, 12], [4], [48, 5, 9], [7]]), (False, [[38, 5, 15], [1], [44], [27]])]:     # the plain cases
+        steps = []
+        for j, ps in enumerate(seq):
+            steps += [make_step(_c("sgr", ps=ps), rng), make_step(_c("put", 97 + j), rng)]
+        out.append({"w": 10, "h": 2, "steps": steps, "driver": "sgr-split-true" if true else "sgr-split"})
+    for i in range(n):
+        true = i % 3 == 2      # 24-bit colours are not mixed with palette colours (findings/C15.json: C15-sgr-truecolour-palette-mix)
+        steps = []
+        for j in range(rng.randint(4, 9)):
+            r = rng.random()
+            if j == 0 and r < 0.5:
+                ps = [1]
+            elif r < 0.4:
+                ps = rng.choice(SGR_FLAGS)
+            elif true:
+                half = rng.choice([38, 38, 48])
+                ps = [half, 2, rng.choice([0, 0, 0, 1, 200]), rng.choice([0, 0, 0, 128]), rng.randint(0, 17)]
+            elif r < 0.75:
+                ps = [rng.choice([38, 38, 48]), 5, rng.choice([rng.randint(0, 15), rng.randint(0, 15), rng.randint(16, 255)])]
+            elif r < 0.9:
+                ps = [rng.choice([30, 90]) + rng.randint(0, 7)] if rng.random() < 0.6 else [rng.choice([40, 100]) + rng.randint(0, 7)]
+            elif r < 0.95:
+                ps = rng.choice([[39], [49], [0], []])
+            else:
+                ps = [1, 38, 5, rng.randint(8, 15)]
+            steps.append(make_step(_c("sgr", ps=ps), rng))
+            steps.append(make_step(_c("put", 97 + j), rng))
+        out.append({"w": 10, "h": 2, "steps": steps, "driver": "sgr-split-true" if true else "sgr-split"})
+    return out
+
+
+INTERRUPTS = [lambda rng, w, h: _c("put", rng.choice([120, 121, 65])), lambda rng, w, h: _c("txt", ps=[120, 121][:rng.randint(1, 2)]),
+              lambda rng, w, h: _c("cr"), lambda rng, w, h: _c("lf"), lambda rng, w, h: _c("nel"), lambda rng, w, h: _c("bs"),
+              lambda rng, w, h: _c("cup", rng.randint(0, w - 1), rng.randint(0, h - 1)), lambda rng, w, h: _c("cuf", 1),
+              lambda rng, w, h: _c("sgr", ps=rng.choice([[31], [4], [0]])), lambda rng, w, h: _c("el", 0), lambda rng, w, h: _c("cpr"),
+              lambda rng, w, h: _c("ht"), lambda rng, w, h: _c("decsc")]
+
+
+def utf8_interrupted_specs(rng, n, singles=-1):
+    """Truncated and invalid UTF-8 next to the commands: a sequence that is cut short (its first byte and fewer continuation bytes than
+    it announces), then ordinary output (text, C0 controls, escape sequences), then a continuation byte that continues nothing -
+    among well-formed characters; the terminal decodes UTF-8 by configuration (urwid "utf8") or by the program's selection (ESC % G).
+    Every stream is fed again under every single cut."""
+    out = []
+    for i in range(n):
+        enc = rng.choice(["utf8", "utf8", "utf-8", "iso8859-1"])
+        w, h = rng.choice([4, 6, 12]), rng.choice([1, 2, 3])
+        cmds = [] if enc == "utf8" else [_c("mcs", 1)]
+        for _ in range(rng.randint(1, 3)):
+            if rng.random() < 0.6:
+                cmds.append(rng.choice(INTERRUPTS[:2])(rng, w, h))
+            if rng.random() < 0.4:
+                cmds.append(raw_cmd(rng, True, enc, rng.randint(1, 2)))
+            whole = chr(rng.choice(LATIN1_CPS + ([] if enc.startswith("iso") else WIDER_CPS + [0x1F600, 0x10348]))).encode("utf-8")
+            if rng.random() < 0.8:      # a sequence cut short by what follows
+                cmds.append(_c("mal", 0, 0, list(whole[:rng.randint(1, len(whole) - 1)])))
+                for _ in range(rng.randint(1, 3)):
+                    cmds.append(rng.choice(INTERRUPTS)(rng, w, h))
+            if rng.random() < 0.85:     # continuation bytes that continue nothing (0x80..0x9F are left to part (b): C1 controls on 8-bit terminals)
+                tail = [whole[-1]] if whole[-1] >= 0xA0 and rng.random() < 0.5 else [rng.randrange(0xA0, 0xC0)]
+                cmds.append(_c("mal", len(tail), 0, tail + ([rng.randrange(0xA0, 0xC0)] if rng.random() < 0.2 else [])))
+                cmds.append(rng.choice(INTERRUPTS[:2])(rng, w, h))
+        steps = [make_step(c, rng) for c in cmds]
+        spec = {"w": w, "h": h, "enc": enc, "steps": steps, "driver": "utf8-interrupted"}
+        spec["refeeds"] = refeed_policies(steps, rng, singles, 2)
+        out.append(spec)
+    return out
+
+
 def directed_b_specs():
     out = _directed_b_specs()
     for i, sp in enumerate(out):
@@ -1185,7 +1313,7 @@ def _handle(chk, traces, res, label):
                                           "why": why, "observed": e})
 
 
-_EV_KEYS = ("t", "a", "b", "ps", "exc", "w", "h", "k", "rot", "pend", "g", "cur", "sb", "pen", "reg", "tabs", "md", "cs", "reps", "view",     # (a)
+_EV_KEYS = ("t", "a", "b", "ps", "exc", "w", "h", "k", "rot", "pend", "g", "cur", "sb", "pen", "reg", "tabs", "md", "cs", "reps", "view", "psb", "pg",     # (a)
             "hang", "nq", "qk", "lens", "ccur",                                                                                      # (b)
             "st", "g0", "sb0", "cur0", "ccur0", "reg0", "st0", "reps0")                                                              # (b) rechunk
 
@@ -1272,12 +1400,18 @@ def run(chk):
         a_specs += [random_a_spec(rng, ext=0.45) for _ in range(n_rand_ext)]
         a_specs += directed_a_specs(rng)
         a_specs += scrollback_view_specs(rng, (1, 2, 3) if quick else (1, 2, 3, 4, 5, 6))
+        n_resize_lines = 60 if quick else 3000
+        n_sgr_split = 90 if quick else 4000
+        n_utf8_interrupted = 70 if quick else 3000
+        a_specs += resize_lines_specs(rng, n_resize_lines)      # the lines kept across resizes of every kind
+        a_specs += sgr_split_specs(rng, n_sgr_split)            # the rendition carried from one SGR sequence to the next
         for sp in a_specs:          # every stream once more in one feed and under one other chunking
             if "refeeds" not in sp:
                 sp["refeeds"] = light_refeeds(sp["steps"], rng)
         # the main character set selected in mid-stream: cut at every single position
         a_specs += [random_charset_spec(rng, -1, 2 if quick else 5) for _ in range(n_charset)]
         a_specs += directed_charset_specs(rng)
+        a_specs += utf8_interrupted_specs(rng, n_utf8_interrupted, -1)      # truncated / stray UTF-8 between ordinary output, every cut
         # in the forked workers: a collection of this process's large heap in the middle of a feed would trip the CPU-time watchdog
         a_traces = pool.map(run_a, a_specs, chunksize=32)
         # spec -> code: how far each TLC behaviour's states agree with the emulator (informational)
@@ -1360,10 +1494,38 @@ def run(chk):
     def cnt(key):
         kinds[key] = kinds.get(key, 0) + 1
 
+    FG_CODES = set(range(30, 40)) | set(range(90, 98)) | {0}
     for tr in a_traces:
         u8 = tr["lock"] == 1      # the decoder in force, followed along the commands (counters only)
+        cut_short = False         # a sequence was cut short and no well-formed character or stray byte has been shown since
+        prev_pen = [-1, -1, 0]
         for e in tr["ev"]:
             cnt("a." + e["t"])
+            if e["t"] == "resize" and not e["exc"]:
+                dh = e["h"] - len(e["pg"])
+                cnt("a.resize." + ("taller" if dh > 0 else "shorter" if dh < 0 else "same_height"))
+                if dh >= 2 and len(e["psb"]) >= 2:
+                    cnt("a.resize.taller_by_2_or_more_rows_with_2_or_more_lines_scrolled_off")
+                if e["psb"] and e["pg"] and e["w"] != len(e["pg"][0]):
+                    cnt("a.resize.width_changes_with_lines_scrolled_off")
+            if e["t"] == "sgr" and (prev_pen[2] & 1) and not (set(e["ps"] or [0]) & FG_CODES):
+                if 1008 <= prev_pen[0] <= 1015:
+                    cnt("a.sgr.bold_palette_index_8_to_15_carried_into_a_later_sgr")
+                if 2 ** 24 + 8 <= prev_pen[0] <= 2 ** 24 + 15:
+                    cnt("a.sgr.bold_24bit_colour_numbered_8_to_15_carried_into_a_later_sgr")
+            if e["t"] in CMDS:
+                prev_pen = e["pen"]
+            if e["t"] == "mal":
+                if e["ps"][0] >= 0xC0:
+                    cnt("a.mal.sequence_cut_short_by_other_output")
+                    cut_short = True
+                else:
+                    cnt("a.mal.continuation_byte_that_continues_nothing")
+                    if cut_short:
+                        cnt("a.mal.continuation_byte_after_a_sequence_cut_short")
+                    cut_short = False
+            elif e["t"] == "raw":
+                cut_short = False
             if e["t"] == "mcs" and not tr["lock"]:
                 u8 = e["a"] == 1
                 cnt("a.charset.selected_" + ("utf8" if u8 else "8bit") + "_by_the_program")
@@ -1435,6 +1597,10 @@ def run(chk):
              "a.charset.selected_utf8_by_the_program", "a.charset.selected_8bit_by_the_program", "a.charset.raw_bytes_decoded_as_utf8_by_selection",
              "a.charset.raw_bytes_decoded_as_8bit_by_selection", "a.charset.raw_bytes_decoded_as_utf8",
              "b.rechunk.whole", "b.rechunk.bytes", "b.rechunk.cuts", "b.rechunk.charset_selected_then_bytes_above_0x7f"]
+    need += ["a.resize.taller", "a.resize.shorter", "a.resize.taller_by_2_or_more_rows_with_2_or_more_lines_scrolled_off",
+             "a.resize.width_changes_with_lines_scrolled_off", "a.sgr.bold_palette_index_8_to_15_carried_into_a_later_sgr",
+             "a.sgr.bold_24bit_colour_numbered_8_to_15_carried_into_a_later_sgr", "a.mal.sequence_cut_short_by_other_output",
+             "a.mal.continuation_byte_that_continues_nothing", "a.mal.continuation_byte_after_a_sequence_cut_short"]
     need += [f"a.region.{rel}.{op}" for rel in ("above", "inside", "below") for op in REGION_OPS]
     need += [f"a.region.{rel}.text_wraps_to_the_next_row" for rel in ("above", "inside", "below")]
     need += ["a.view.scrolled_back_up_to_one_screen", "a.view.scrolled_back_one_to_two_screens", "a.view.scrolled_back_two_screens_or_more",
@@ -1464,6 +1630,8 @@ def run(chk):
                          "region_family": [f"{w}x{h} depth {rd}" for w, h, rd in regs], "region_family_histories": n_region,
                          "tlc_simulated_sequences": len(sims) - n_region, "random_sequences": n_rand, "random_sequences_extended": n_rand_ext,
                          "random_sequences_charset_every_cut": n_charset,
+                         "resize_lines_sequences": n_resize_lines, "sgr_split_sequences": n_sgr_split,
+                         "utf8_interrupted_sequences_every_cut": n_utf8_interrupted,
                          "robustness_streams": len(b_specs), "hang_candidates": len(hangy), "watchdog_cpu_seconds": CPU_BUDGET_S}
     chk.sample({"faithfulness_steps": [{k: v for k, v in s.items()} for s in a_specs[0]["steps"][:6]], "grid_after_last": a_traces[0]["ev"][-1]["g"]})
     chk.sample({"robustness_ops": b_specs[1]["ops"][:4], "events": [{k: v for k, v in e.items() if not k.startswith("d_")} for e in b_traces[1]["ev"][:3]]})
@@ -1472,13 +1640,16 @@ def run(chk):
                                "vf/term.char_width (only for the wide-glyph DIVERGENCE)"]
     chk.assumptions += ["faithfulness uses width-1 glyphs in utf8 mode; wide glyphs only in (b)",
                         "raw bytes of part (a) are well-formed for the character set in force (UTF-8 sequences of characters the urwid encoding can "
-                        "show; 0xA0..0xFF as 8-bit characters: 0x80..0x9F are C1 controls); malformed and truncated UTF-8 only in (b)",
+                        "show; 0xA0..0xFF as 8-bit characters: 0x80..0x9F are C1 controls); malformed UTF-8 in (a) ('mal'): sequences cut short "
+                        "by other output and stray continuation bytes 0xA0..0xBF, accepted as U+FFFD per byte (xterm) or as nothing / the 8-bit "
+                        "character (lenient reading, VTermOps LenientFrom); all other malformed input only in (b)",
                         "while UTF-8 is selected by ESC % G the console does not designate G0 / G1 (ESC ( 0 is ignored): accepted as console dialect",
                         "a re-fed stream is judged at its end only (final screen, cursor, scrollback, pen, region, tab stops, modes, all replies)",
                         "G1 is invoked (SO) only after it has been designated: the console's default G1 is the graphics set, a VT100's is ASCII",
                         "CSI s / CSI u save and restore the cursor position only (SCO); ESC 7 / ESC 8 also the rendition and the charsets, not the modes",
                         "autowrap off: the last-column flag is never set; HT leaves it alone on a VT100 and clears it on the console (both accepted)",
-                        "after a resize the reference adopts the emulator's screen and tab stops (a VT100 has no resize); only the shape is judged there",
+                        "after a resize the reference adopts the emulator's screen and tab stops (a VT100 has no resize); the shape is judged there, and that scrollback "
+                        "and screen read from top to bottom hold the same lines as before (VTermOps ResizeKeepsLines)",
                         "the emulator may keep more lines in its scrollback than the reference (lines leaving a region below the top); order is judged",
                         "SGR flags (bold, underline, ...) are compared only in the strict pass (DIVERGENCE); colours are compared by meaning "
                         "(palette 0-15 = basic colours, bold basic colour = bright)",
